@@ -20,7 +20,10 @@ Variable veq : V -> V -> bool.            (* a.Equal(b) *)
 
 (* ---------- values, events ---------- *)
 Definition amapV := list (bytes * V).     (* a model: map[string]Value, head wins *)
-Inductive rv := RM (m : amapV) | RC (c : list V).   (* what a resource serves *)
+(* what a resource holds / serves.  RBad = a Go value outside the domain of the property: it does not
+   marshal (json.Marshal error), or its JSON is not an object/array of valid RES values.  Both diffs
+   fail on it (error logged, nothing published) and a get cannot serve it as a resource. *)
+Inductive rv := RM (m : amapV) | RC (c : list V) | RBad.
 Inductive mval := MDelete | MSet (v : V). (* a value of a change event; MDelete = {"action":"delete"} *)
 Inductive event :=
 | EChange (ch : list (bytes * mval))
@@ -288,6 +291,15 @@ Definition get_resource (cfg : config) (rid : bytes) (store : bytes -> option rv
     end
   end.
 
+(* getResource when the store's Value() may fail with an error that is not (and does not wrap)
+   ErrNotFound for the ids [rerr] says: "r.Error(err)".  The RIDToID = "" answer comes first. *)
+Inductive get_result_e := GE (g : get_result) | GError.
+Definition get_resource_e (cfg : config) (rid : bytes) (rerr : bytes -> bool) (store : bytes -> option rv)
+  : get_result_e :=
+  let id := match c_trans cfg with Some t => tr_rid_to_id t rid | None => rid end in
+  if (match c_trans cfg with Some _ => true | None => false end) && is_nil id then GE GMissing else
+  if rerr id then GError else GE (get_resource cfg rid store).
+
 (* ---------- mockstore write transactions on one id ---------- *)
 Inductive op := OCreate (v : rv) | OUpdate (v : rv) | ODelete.
 Definition one_store (id : bytes) (st : option rv) : bytes -> option rv :=
@@ -368,12 +380,12 @@ Fixpoint apply_events (es : list event) (c : cstate) : option cstate :=
 
 End Diff.
 
-Arguments RM {V}. Arguments RC {V}.
+Arguments RM {V}. Arguments RC {V}. Arguments RBad {V}.
 Arguments MDelete {V}. Arguments MSet {V}.
 Arguments EChange {V}. Arguments ERemove {V}. Arguments EAdd {V}. Arguments ECreate {V}. Arguments EDelete {V}.
 Arguments DOk {V}. Arguments DOutOfFuel {V}. Arguments DPanic {V}.
 Arguments HOk {V}. Arguments HFuel {V}. Arguments HPanic {V}.
-Arguments GMissing {V}. Arguments GValue {V}.
+Arguments GMissing {V}. Arguments GValue {V}. Arguments GE {V}. Arguments GError {V}.
 Arguments OCreate {V}. Arguments OUpdate {V}. Arguments ODelete {V}.
 Arguments CMissing {V}. Arguments CPresent {V}.
 Arguments Tr {V}. Arguments Cfg {V}.
@@ -394,4 +406,34 @@ Definition jv_eqb (a b : jv) : bool :=
   match a, b with
   | JPrim x, JPrim y | JRef x, JRef y | JSoft x, JSoft y | JData x, JData y => beq x y
   | _, _ => false
+  end.
+
+(* ---------- registration: store.Handler.SetOption + storeHandler.onRegister ----------
+   s.Handle(pattern, <type option>, store.Handler{Store, Transformer, Default}).  The documented panics are
+   explicit outcomes.  SetOption runs while the options are applied, i.e. before the handler is added to the
+   Mux; onRegister runs after the Mux has stored the handler, so a (recovered) onRegister panic leaves a
+   registered handler whose type was never recorded: a get on it answers errInvalidResourceType. *)
+Inductive reg_type := RTUnset | RTModel | RTCollection | RTOther.
+Inductive reg_default := DNone | DUnmarshalable | DObject | DArray | DOtherJson.   (* DOtherJson: string, number, null, ... *)
+Inductive reg_outcome :=
+| RegOk | RegPanicNoStore | RegPanicDefaultMarshal | RegPanicDefaultKind | RegPanicTypeUnset | RegPanicTypeInvalid.
+Definition register (has_store : bool) (d : reg_default) (t : reg_type) : reg_outcome :=
+  if negb has_store then RegPanicNoStore else
+  match d with
+  | DUnmarshalable => RegPanicDefaultMarshal
+  | _ =>
+    match t with
+    | RTModel => match d with DArray | DOtherJson => RegPanicDefaultKind | _ => RegOk end
+    | RTCollection => match d with DObject | DOtherJson => RegPanicDefaultKind | _ => RegOk end
+    | RTUnset => RegPanicTypeUnset
+    | RTOther => RegPanicTypeInvalid
+    end
+  end.
+(* a get on the pattern afterwards, the store holding a value of the type's shape *)
+Inductive reg_get := RGServed | RGNoHandler | RGInvalidType.
+Definition get_after_register (o : reg_outcome) : reg_get :=
+  match o with
+  | RegOk => RGServed
+  | RegPanicNoStore | RegPanicDefaultMarshal => RGNoHandler
+  | RegPanicDefaultKind | RegPanicTypeUnset | RegPanicTypeInvalid => RGInvalidType
   end.
